@@ -350,6 +350,11 @@ class Ctx(object):
         return self.regen_obligations('tools.regen.loops_ast', 'Gen_loops.v', 'Lp_%s.v' % self.prop,
                                       'Lp_diag_%s.v' % self.prop, 'lp_')
 
+    def guards_obligations(self):
+        """guard helpers of the in-place operators as boolean / shape functions (tools/regen/guards_ast.py) + coq/obl/Grd_<prop>.v"""
+        return self.regen_obligations('tools.regen.guards_ast', 'Gen_guards.v', 'Grd_%s.v' % self.prop,
+                                      'Grd_diag_C19.v' if self.prop == 'C19' else 'Grd_diag.v', 'grd_')
+
     def logic_obligations(self):
         """Qube.or_ / Qube.and_ (and tvl_and / tvl_or) as Gallina terms (tools/regen/logic_ast.py) + coq/obl/Lgc_<prop>.v"""
         return self.regen_obligations('tools.regen.logic_ast', 'Gen_logic.v', 'Lgc_%s.v' % self.prop, 'Lgc_diag.v', 'lgc_')
